@@ -269,7 +269,7 @@ def run_one(case):
     if sum(case["rs"]) % 4 == 1 and case.get("dt", "default") in ("default", "float32",
                                                                     "complex64"):
         _PZ[0] = (sum(case["rs"]) % 11, [np.nan, np.inf, -np.inf][sum(case["rs"]) % 3])
-    at_ = (sum(case["rs"]) // 5) % 6       # container type of the integer-sequence arguments
+    at_ = (sum(case["rs"]) // 5) % 8       # container type of the integer-sequence arguments
 
     def V(seq):
         return vary_seq(seq, at_)
